@@ -145,7 +145,7 @@ class C16(Check):
     level_text = ('Seeded search over client/clock/tamper histories with a token-registry oracle; the space is '
                   'unbounded (byte strings x times), so sampling with targeted boundary steps is the honest level.')
     level_note = 'Trusted: HMAC-SHA1 itself; the harness registry of issued tokens; simulated clock seams.'
-    required_probes = ('expired-empty', 'valid-at-exact-expiry', 'tamper-empty', 'tamper-source-data',
+    required_probes = ('two-cookie-servers', 'expired-empty', 'valid-at-exact-expiry', 'tamper-empty', 'tamper-source-data',
                        'cross-client-seen', 'replay-old-token', 'backward-jump-valid-again')
 
     def gen_config(self, rng):
@@ -158,6 +158,12 @@ class C16(Check):
     def generate(self, seed, tier):
         S = Streams(seed)
         cfg = self.gen_config(S['config'])
+        if S['config'].random() < 0.4:
+            # a second application with its own SignedCookieMiddleware (other expiry / key) in the same process
+            second = self.gen_config(S['config'])
+            second['key'] = (second['key'] or 'k2') + '-second'
+            second['nclients'] = cfg['nclients']
+            cfg['second'] = second
         rng, frng, erng = S['ops'], S['faults'], S['env']
         fault_free = frng.random() < 0.15
         ops = []
@@ -194,6 +200,9 @@ class C16(Check):
                 ops.append({'op': 'replay', 'c': c, 'back': rng.randint(1, 4)})
             else:
                 ops.append({'op': 'cross', 'c': c, 'other': rng.randrange(nc)})
+        if cfg.get('second'):
+            for op in ops:
+                op['srv'] = 1 if rng.random() < 0.4 else 0
         return {'world': 'cookie', 'seed': seed, 'config': cfg, 'ops': ops}
 
     # ---- execution ---------------------------------------------------------
@@ -206,19 +215,24 @@ class C16(Check):
             sm.patch(ck, 'time', TimeProxy(clock))
             sm.patch(sc, 'time', TimeProxy(clock))
             sm.patch(ck, 'os', osp)
-            key = cfg['key'].encode() if cfg['key'] else None
-            kw = dict(arg_name=cfg['arg_name'], secret_key=key, expiry=cfg['expiry'])
-            if cfg['cookie_name']:
-                kw['cookie_name'] = cfg['cookie_name']
-            mw = ck.SignedCookieMiddleware(**kw)
-            if key is None:
-                if osp.calls != 1:
-                    res.violate('C16/urandom-seam-unused', 'default key did not come from os.urandom')
-                res.fire('seeded-urandom-key')
-            cname = mw.cookie_name
-            app = Application([('/', make_endpoint(cfg['arg_name']))], middlewares=[mw])
-            st = _State(cfg, clock, cname, app, res)
+            states = []
+            for n, scfg in enumerate([cfg] + ([cfg['second']] if cfg.get('second') else [])):
+                key = scfg['key'].encode() if scfg['key'] else None
+                kw = dict(arg_name=scfg['arg_name'], secret_key=key, expiry=scfg['expiry'])
+                if scfg['cookie_name']:
+                    kw['cookie_name'] = scfg['cookie_name']
+                calls0 = osp.calls
+                mw = ck.SignedCookieMiddleware(**kw)
+                if key is None:
+                    if osp.calls != calls0 + 1:
+                        res.violate('C16/urandom-seam-unused', 'default key did not come from os.urandom')
+                    res.fire('seeded-urandom-key')
+                app = Application([('/', make_endpoint(scfg['arg_name']))], middlewares=[mw])
+                states.append(_State(scfg, clock, mw.cookie_name, app, res))
+            if len(states) > 1:
+                res.probe('two-cookie-servers')
             for step, op in enumerate(plan['ops']):
+                st = states[op.get('srv', 0) % len(states)]
                 st.step = step
                 try:
                     getattr(st, 'op_' + op['op'])(op)
@@ -228,9 +242,10 @@ class C16(Check):
                     break
             # recovery: every client with a registered, unexpired token is served its data
             if not res.violations:
-                for c in range(cfg['nclients']):
-                    st.step = 'final'
-                    st.honest(c, 'read', None, None, [], final=True)
+                for st in states:
+                    for c in range(st.cfg['nclients']):
+                        st.step = 'final'
+                        st.honest(c, 'read', None, None, [], final=True)
         res.steps = len(plan['ops'])
         res.sim_time = clock.covered
         return res
